@@ -7,7 +7,7 @@ import (
 
 // Clock model.  time.Now() returns a wall-clock Time without monotonic reading:
 // {wall: 0 (nsec 0), ext: seconds since year 1, loc: nil (UTC)}.  The first reading is a free
-// value in a sane unix range; every later reading on the same path is the previous one plus a
+// value in [1e9, 1e9+2^31) unix seconds; every later reading on the same path is the previous one plus a
 // free 0/1 seconds ("the clock advances by less than two seconds between two consecutive
 // readings").  Harnesses that need larger time steps construct times explicitly.
 
@@ -23,15 +23,13 @@ func init() {
 			in.clockN++
 			return structure{uint64(0), int64(1_700_000_000 + unixToInternal + int64(in.clockN)), (*value)(nil)}
 		}
+		// ranges are structural (zero-extended narrow variables), not path-condition constraints: a
+		// reading taken inside a speculatively merged arm must keep its range after the arm is merged
 		if in.lastClock == nil {
-			v := in.freshVar("clock.unix", 64)
-			lo := c.Cmp(OpSLe, c.Const(64, 1_000_000_000), v)
-			hi := c.Cmp(OpSLe, v, c.Const(64, 4_000_000_000))
-			in.pc = append(in.pc, lo, hi)
-			ext = c.BV(OpBVAdd, v, c.Const(64, uint64(unixToInternal)))
+			v := c.ZExt(c.Extract(in.freshVar("clock.unix", 64), 30, 0), 64) // [0, 2^31)
+			ext = c.BV(OpBVAdd, v, c.Const(64, uint64(1_000_000_000+unixToInternal)))
 		} else {
-			step := in.freshVar(fmt.Sprintf("clock.step%d", in.clockN), 64)
-			in.pc = append(in.pc, c.Cmp(OpULe, step, c.Const(64, 1)))
+			step := c.ZExt(c.Extract(in.freshVar(fmt.Sprintf("clock.step%d", in.clockN), 64), 0, 0), 64) // 0 or 1
 			ext = c.BV(OpBVAdd, in.lastClock, step)
 		}
 		in.clockN++
